@@ -57,6 +57,8 @@ def note_raw_data(repo: Repo, rep, P: str):
     if g is None or s is None:
         raise AnchorMissing("Note.raw_data getter/setter")
     rep.func("rv.note.Note.raw_data")
+    from .. import inline
+    g, s = inline.normalize(repo, note, g), inline.normalize(repo, note, s)
     gcall = None
     for n in walk_no_nested(g):
         if isinstance(n, ast.Call) and norm(n.func) in ("pack", "struct.pack"):
@@ -76,7 +78,22 @@ def note_raw_data(repo: Repo, rep, P: str):
         rep.inconclusive(f"{P}.R1", construct, norm(gcall), "format not constant", f"{note.file.rel}:{g.lineno}")
         return
     gfields = [attr_chain(a)[-1] if attr_chain(a) else norm(a) for a in gcall.args[1:]]
-    sfields = [attr_chain(t)[-1] if attr_chain(t) else norm(t) for t in (starget.elts if isinstance(starget, ast.Tuple) else [starget])]
+    if any(isinstance(a, ast.Starred) for a in gcall.args[1:]):
+        rep.inconclusive(f"{P}.R1", construct, norm(gcall), "packed values are not visible one by one", f"{note.file.rel}:{g.lineno}")
+        return
+    if isinstance(starget, ast.Name):
+        # values = unpack(fmt, data); self.a = values[0]; self.b = values[1]; ...
+        by_index = {}
+        for n in walk_no_nested(s):
+            if isinstance(n, ast.Assign) and len(n.targets) == 1 and isinstance(n.value, ast.Subscript) and norm(n.value.value) == starget.id \
+                    and isinstance(n.value.slice, ast.Constant) and isinstance(n.value.slice.value, int) and attr_chain(n.targets[0]):
+                by_index.setdefault(n.value.slice.value, []).append(attr_chain(n.targets[0])[-1])
+        if sorted(by_index) != list(range(len(by_index))) or any(len(v) != 1 for v in by_index.values()) or not by_index:
+            rep.inconclusive(f"{P}.R1", construct, norm(s)[:160], "destination of the unpacked values not recognised", f"{note.file.rel}:{s.lineno}")
+            return
+        sfields = [by_index[i][0] for i in range(len(by_index))]
+    else:
+        sfields = [attr_chain(t)[-1] if attr_chain(t) else norm(t) for t in (starget.elts if isinstance(starget, ast.Tuple) else [starget])]
     where = f"{note.file.rel}:{g.lineno}"
     if gfmt != sfmt:
         rep.violation(f"{P}.R1", construct, f"pack({gfmt!r}) / unpack({sfmt!r})",
